@@ -2790,3 +2790,156 @@ pub fn c16(args: &Args) -> Report {
     rep.set("configurations", json!(cfgs.iter().map(|c| c.label()).collect::<Vec<_>>()));
     rep
 }
+
+// ------------------------------------------------------------------------------------------------
+// C12, layered part: the passthrough (standalone and behind a Vfs) and the overlay switch on no-open,
+// no-opendir, writeback, kill-priv and per-file DAX behaviour exactly when the INIT reply says so.
+
+const CAP_NO_OPEN: u64 = 1 << 17;
+const CAP_WRITEBACK: u64 = 1 << 16;
+const CAP_NO_OPENDIR: u64 = 1 << 24;
+const CAP_KILLPRIV_V2: u64 = 1 << 28;
+const CAP_INIT_EXT: u64 = 1 << 30;
+const CAP_DAX: u64 = 1 << 33;
+
+pub fn c12_layers(rep: &mut Report, idx: &mut u64) {
+    use fuse_backend_rs::api::filesystem::Layer;
+    use std::os::unix::fs::PermissionsExt;
+    use std::sync::Arc;
+    use fuse_backend_rs::overlayfs::config::Config as OConfig;
+    use fuse_backend_rs::overlayfs::OverlayFs;
+    use fuse_backend_rs::passthrough::{Config as PConfig, PassthroughFs};
+    type BoxedLayer = Box<dyn Layer<Inode = u64, Handle = u64> + Send + Sync>;
+    let varied = [CAP_NO_OPEN, CAP_NO_OPENDIR, CAP_WRITEBACK, CAP_KILLPRIV_V2, CAP_DAX];
+    let baseline: u64 = crate::ptworld::CAPABLE_ALL & !(CAP_NO_OPEN | CAP_NO_OPENDIR | CAP_WRITEBACK | CAP_KILLPRIV_V2 | CAP_DAX) | CAP_INIT_EXT;
+    let mut cl = Client::new();
+    for layer in 0..3usize {
+        for sw in 0..32usize {
+            for cm in 0..32usize {
+                let mine = rep.mine(*idx);
+                *idx += 1;
+                if !mine {
+                    continue;
+                }
+                let (no_open, no_opendir, writeback, killpriv, dax) = (sw & 1 != 0, sw & 2 != 0, sw & 4 != 0, sw & 8 != 0, sw & 16 != 0);
+                let caps = baseline | (0..5).filter(|i| cm & (1 << i) != 0).map(|i| varied[i]).fold(0, |a, b| a | b);
+                let cfg = PtCfg { no_open, no_opendir, writeback, killpriv_v2: killpriv, dax, behind_vfs: layer == 1, ..PtCfg::base() };
+                let n0 = cl.nreq;
+                // the world: exported tree with a 7-byte file `a`, a 9-byte file `d/a` and a set-user-ID file `s`
+                let mut w = PtWorld::new_caps(&cfg, &mut cl, true, if layer == 2 { crate::ptworld::CAPABLE_ALL } else { caps });
+                std::fs::write(w.exp.join("s"), b"suid\n").unwrap();
+                std::fs::set_permissions(w.exp.join("s"), std::fs::Permissions::from_mode(0o4755)).unwrap();
+                let layer_name = ["passthrough", "vfs+passthrough", "overlay"][layer];
+                if layer == 2 {
+                    // an overlay whose upper layer is the export directory (everything is already "copied up")
+                    let mk = |dir: &std::path::Path| -> Arc<BoxedLayer> {
+                        let c = PConfig { root_dir: dir.to_string_lossy().to_string(), xattr: true, do_import: true, ..PConfig::default() };
+                        let fs = PassthroughFs::<()>::new(c).unwrap();
+                        fs.import().unwrap();
+                        Arc::new(Box::new(fs) as BoxedLayer)
+                    };
+                    let low = w.base.join("lower");
+                    std::fs::create_dir_all(&low).unwrap();
+                    let ocfg = OConfig { do_import: true, no_open, no_opendir, writeback, killpriv_v2: killpriv, perfile_dax: dax, ..OConfig::default() };
+                    let ofs = OverlayFs::new(Some(mk(&w.exp)), vec![mk(&low)], ocfg).unwrap();
+                    w.subj = crate::ptworld::Subject::Ovl(fuse_backend_rs::api::server::Server::new(Arc::new(ofs)));
+                    w.fs = None;
+                    w.vfs = None;
+                    let r = cl.init(&w.subj, caps);
+                    w.enabled = if r.ok() && r.body.len() >= 64 { crate::wire::get(&r.body, &k::FUSE_INIT_OUT, "flags") | (crate::wire::get(&r.body, &k::FUSE_INIT_OUT, "flags2") << 32) } else { 0 };
+                }
+                let enabled = w.enabled;
+                let mut problems: Vec<(String, String)> = Vec::new();
+                // The property: a behaviour is switched on ONLY when the feature was negotiated (offered by the client and
+                // enabled in the reply). The converse - negotiated but the layer does not behave - is not demanded by the
+                // statement; it is counted (`notes`) and shown in the outcome, never reported as a violation.
+                let notes = std::cell::RefCell::new(Vec::<String>::new());
+                let eq = |class: &str, behaviour: bool, bit: u64, what: &str| -> Option<(String, String)> {
+                    let neg = enabled & bit != 0 && caps & bit != 0;
+                    if behaviour && !neg {
+                        Some((class.to_string(), format!("{}: behaviour ON but the feature was not negotiated (offered: {}, enabled in the reply: {})", what, caps & bit != 0, enabled & bit != 0)))
+                    } else {
+                        if neg && !behaviour {
+                            notes.borrow_mut().push(class.replace("-behaviour", ""));
+                        }
+                        None
+                    }
+                };
+                if enabled & !caps & (CAP_NO_OPEN | CAP_NO_OPENDIR | CAP_WRITEBACK | CAP_KILLPRIV_V2 | CAP_DAX) != 0 {
+                    problems.push(("enabled-not-offered".into(), format!("reply enables {:#x} which the client did not offer", enabled & !caps)));
+                }
+                let a = cl.lookup(&w.subj, 1, b"a").ok();
+                let s = cl.lookup(&w.subj, 1, b"s").ok();
+                let d = cl.lookup(&w.subj, 1, b"d").ok();
+                let da = d.as_ref().and_then(|d| cl.lookup(&w.subj, d.nodeid, b"a").ok());
+                if let (Some(a), Some(s), Some(da)) = (&a, &s, &da) {
+                    // no-open / no-opendir
+                    let o = cl.open(&w.subj, a.nodeid, libc::O_RDONLY as u32);
+                    problems.extend(eq("no-open-behaviour", o == Err(libc::ENOSYS), CAP_NO_OPEN, "OPEN answered ENOSYS"));
+                    if let Ok((fh, _)) = o {
+                        let _ = cl.release(&w.subj, a.nodeid, fh, 0, false);
+                    }
+                    let od = cl.opendir(&w.subj, 1, 0);
+                    problems.extend(eq("no-opendir-behaviour", od == Err(libc::ENOSYS), CAP_NO_OPENDIR, "OPENDIR answered ENOSYS"));
+                    if let Ok((fh, _)) = od {
+                        let _ = cl.release(&w.subj, 1, fh, 0, true);
+                    }
+                    // writeback: a write-only open is turned into read-write, O_APPEND is stripped (only observable with handles)
+                    if let Ok((fh, _)) = cl.open(&w.subj, a.nodeid, (libc::O_WRONLY | libc::O_APPEND) as u32) {
+                        let rd = cl.read(&w.subj, a.nodeid, fh, 0, 4, (libc::O_WRONLY | libc::O_APPEND) as u32);
+                        problems.extend(eq("writeback-behaviour", rd.is_ok(), CAP_WRITEBACK, "a handle opened O_WRONLY|O_APPEND can be read (opened O_RDWR for the writeback cache)"));
+                        let _ = cl.write(&w.subj, a.nodeid, fh, 0, b"X", (libc::O_WRONLY | libc::O_APPEND) as u32, 0);
+                        let _ = cl.release(&w.subj, a.nodeid, fh, 0, false);
+                        let content = std::fs::read(w.exp.join("a")).unwrap_or_default();
+                        let overwrote = content.first() == Some(&b'X') && content.len() == 7;
+                        let appended = content.len() == 8 && content.last() == Some(&b'X');
+                        if overwrote || appended {
+                            problems.extend(eq("writeback-append-behaviour", overwrote, CAP_WRITEBACK, "a WRITE at offset 0 on an O_APPEND handle overwrote byte 0 (O_APPEND stripped for the writeback cache)"));
+                        } else {
+                            problems.push(("writeback-probe".into(), format!("unexpected content after the probe write: {:?}", String::from_utf8_lossy(&content))));
+                        }
+                    }
+                    // kill-priv v2: a WRITE flagged KILL_SUIDGID clears the set-user-ID bit (root keeps it otherwise)
+                    if let Ok((fh, _)) = cl.open(&w.subj, s.nodeid, libc::O_WRONLY as u32) {
+                        let wr = cl.write(&w.subj, s.nodeid, fh, 0, b"Z", libc::O_WRONLY as u32, k::FUSE_WRITE_KILL_SUIDGID as u32);
+                        let _ = cl.release(&w.subj, s.nodeid, fh, 0, false);
+                        if wr.is_ok() {
+                            let mode = std::fs::metadata(w.exp.join("s")).map(|m| m.permissions().mode()).unwrap_or(0);
+                            problems.extend(eq("killpriv-behaviour", mode & 0o4000 == 0, CAP_KILLPRIV_V2, "a WRITE with KILL_SUIDGID cleared the set-user-ID bit"));
+                        } else {
+                            problems.push(("killpriv-probe".into(), format!("probe WRITE failed: {:?}", wr)));
+                        }
+                    }
+                    // per-file DAX: only files of at least dax_file_size (8) bytes, only when negotiated and configured
+                    let big_dax = da.attr.flags as u64 & k::FUSE_ATTR_DAX != 0;
+                    let small_dax = a.attr.flags as u64 & k::FUSE_ATTR_DAX != 0;
+                    if dax {
+                        problems.extend(eq("dax-behaviour", big_dax, CAP_DAX, "LOOKUP of a 9-byte file carries FUSE_ATTR_DAX (dax_file_size = 8)"));
+                    } else if big_dax {
+                        problems.push(("dax-behaviour".into(), "FUSE_ATTR_DAX on a file although per-file DAX is not configured".into()));
+                    }
+                    if small_dax {
+                        problems.push(("dax-behaviour".into(), "FUSE_ATTR_DAX on a 7-byte file although dax_file_size is 8".into()));
+                    }
+                } else {
+                    problems.push(("probe-lookups-failed".into(), format!("a: {:?} s: {:?} d/a: {:?}", a.is_some(), s.is_some(), da.is_some())));
+                }
+                rep.eval();
+                rep.transitions += cl.nreq - n0;
+                let mut nn = notes.borrow().clone();
+                nn.sort();
+                nn.dedup();
+                rep.outcome(&format!("layer:{}:enabled{:x}:{}{}", layer_name, (enabled >> 16 & 3) | (enabled >> 22 & 4) | (enabled >> 25 & 8) | (enabled >> 29 & 16), if problems.is_empty() { "ok" } else { "MISMATCH" }, if nn.is_empty() { String::new() } else { format!(":negotiated-but-inert[{}]", nn.join(",")) }));
+                rep.state_of(&("layer", layer, sw, cm));
+                rep.sample(|| json!({"layer": layer_name, "no_open": no_open, "no_opendir": no_opendir, "writeback": writeback, "killpriv_v2": killpriv, "dax": dax, "offered": format!("{:#x}", caps), "enabled": format!("{:#x}", enabled)}));
+                let mut seen = BTreeSet::new();
+                for (class, msg) in problems {
+                    if !seen.insert(class.clone()) {
+                        continue;
+                    }
+                    rep.violation(&format!("C12/{}/{}", layer_name, class), &msg, || json!({"engine": "c12-layers", "layer": layer_name, "no_open": no_open, "no_opendir": no_opendir, "writeback": writeback, "killpriv_v2": killpriv, "dax": dax, "offered": format!("{:#x}", caps), "enabled": format!("{:#x}", enabled)}));
+                }
+            }
+        }
+    }
+}
